@@ -22,7 +22,7 @@
    x/text's Raw / Script and are outside the model). *)
 From Coq Require Import List NArith Bool Arith.
 From Common Require Import Bytes Outcome.
-From Gen Require Import C14.
+From Gen Require Import C14 C14B.
 From C14 Require Import Model ModelTags.
 From C08 Require Import Model ModelSub ModelSL.
 Import ListNotations.
@@ -203,6 +203,63 @@ Fixpoint ins_asg (a : (list N * list N) * langsys) (l : list ((list N * list N) 
   end.
 Definition canon_asg (asg : list ((list N * list N) * langsys)) : list ((list N * list N) * langsys) :=
   fold_right ins_asg [] (last_wins asg).
+
+(* ------------------------------------------------------------------ *)
+(* bcp47ToOtf on a tag WITHOUT an x extension (fixes/C08-bcp47-plain-tag-
+   deterministic.diff applied).  What the code observes of the tag, through
+   x/text, is the input: whether it is language.Chinese (1), SimplifiedChinese
+   (2), TraditionalChinese (3) or none of them (0), the string of its Raw
+   language and the string of its Script. *)
+Record ptag := mk_ptag { pt_special : N; pt_lang : list N; pt_script : list N }.
+
+(* for key, val := range table { if val == x && (acc == "" || string(key) < acc) { acc = string(key) } }
+   [iter]: the entries in the order the Go map is visited *)
+Fixpoint search_min (iter : list (list N * list N)) (target acc : list N) : list N :=
+  match iter with
+  | [] => acc
+  | (k, v) :: r =>
+      search_min r target
+        (if list_eqb v target && (match acc with [] => true | _ => tag_lt k acc end) then k else acc)
+  end.
+(* as found: for key, val := range table { if val == x { acc = string(key); break } } *)
+Fixpoint search_first (iter : list (list N * list N)) (target : list N) : list N :=
+  match iter with
+  | [] => []
+  | (k, v) :: r => if list_eqb v target then k else search_first r target
+  end.
+(* which of the two the source has is regenerated (Gen/C14B.v) *)
+Definition M_plain_search (smallest : bool) (iter : list (list N * list N)) (target : list N) : list N :=
+  if smallest then search_min iter target [] else search_first iter target.
+
+Definition tag_hani : list N := [104; 97; 110; 105].
+Definition M_plain_tag_gen (lmin smin : bool) (iterL iterS : list (list N * list N)) (pt : ptag)
+  : list N * list N :=
+  if pt_special pt =? 1 then (tag_hani, [90; 72; 80; 32])            (* "ZHP " *)
+  else if pt_special pt =? 2 then (tag_hani, [90; 72; 83; 32])       (* "ZHS " *)
+  else if pt_special pt =? 3 then (tag_hani, [90; 72; 84; 32])       (* "ZHT " *)
+  else (M_plain_search smin iterS (pt_script pt), M_plain_search lmin iterL (pt_lang pt)).
+Definition M_plain_tag := M_plain_tag_gen gtab_plain_lang_min gtab_plain_script_min.
+
+(* a key of a ScriptListInfo: a tag with an x extension or a plain tag *)
+Inductive gtag := XTag (ext : list N) | PTag (pt : ptag).
+Definition M_bcp47ToOtf (iterL iterS : list (list N * list N)) (t : gtag) : option (list N * list N) :=
+  match t with
+  | XTag ext => M_from_ext ext
+  | PTag pt => Some (M_plain_tag iterL iterS pt)
+  end.
+
+Fixpoint M_sl_group_g (iterL iterS : list (list N * list N)) (info : list (gtag * langsys)) : list script_entry :=
+  match info with
+  | [] => []
+  | (t, f) :: r =>
+      match M_bcp47ToOtf iterL iterS t with
+      | Some (s, l) => ins_entry s l f (M_sl_group_g iterL iterS r)
+      | None => M_sl_group_g iterL iterS r
+      end
+  end.
+Definition M_sl_info_encode_g (iterL iterS : list (list N * list N)) (info : list (gtag * langsys))
+  : outcome (list N) :=
+  M_sl_encode (M_sl_group_g iterL iterS info).
 
 (* all pairs of the built-in tables (with the default language system) *)
 Definition builtin_scripts : list (list N) := map fst gtab_scriptBcp47.
